@@ -328,6 +328,26 @@ def cells_to_wire(cells, r):
     raise ValueError(c)
 
 
+def enc9(o):
+    """Python value -> wire, like common.enc, plus PyString(bare name) and container subclasses."""
+    from pypyr.dsl import Jsonify, PyString, SicString
+    if isinstance(o, PyString):
+        return {'py': {'n': o.value}}
+    if isinstance(o, SicString):
+        return {'sic': o.value}
+    if isinstance(o, Jsonify):
+        return {'jsonify': enc9(o.value)}
+    if isinstance(o, (str, bytes, bytearray)) or is_leaf(o):
+        return enc(o)
+    if isinstance(o, tuple):
+        return {'t': [enc9(x) for x in o]}
+    if isinstance(o, Mapping):
+        return {'d': [[enc9(k), enc9(v)] for k, v in o.items()]}
+    if isinstance(o, Set):
+        return {'set': [enc9(x) for x in o]}
+    return [enc9(x) for x in o]
+
+
 def canon_wire(w):
     """Wire value with every set sorted canonically (the model's set order is arbitrary)."""
     if isinstance(w, list):
@@ -514,7 +534,7 @@ def shape_monitor(inp, res, path='$'):
     if isinstance(inp, Set):
         if len(res) > len(inp):
             return f'{path}: set grew'
-        for x in inp:
+        for x in (inp if len(res) == len(inp) else ()):
             if not isinstance(x, str) and is_leaf(x) and not any(x is y for y in res):
                 return f'{path}: set member {x!r} is not in the result as the identical object'
         return None
@@ -614,7 +634,7 @@ def run_impl(value, ctxdict, id2old):
         except Exception as e:
             fails.append(('idempotence', f'formatting the brace-free result again raised {type(e).__name__}: {e}'))
     try:
-        val = canon_wire(enc(res))
+        val = canon_wire(enc9(res))
     except Exception:
         val = {'unencodable': repr(res)[:200]}
     obs = {'ok': {'graph': impl_graph(res, id2old), 'val': val}}
@@ -865,6 +885,10 @@ def directed_cases():
 
 
 TEXTS = ['', 'x', 'ab', 'plain', 'two words', 'a{{b', '{{}}', 'tail}}']
+# a context key's own value may come out of a '{k}' dict-key / set-member expression: no 0/1 (equal to
+# False/True as dict keys: Python key equality is outside the modelled domain), no float
+# (json.dumps float keys are outside PyRepr.jsonDumps)
+CTX_LEAVES = [None, True, False, -7, 2 ** 70, b'', b'\x00{x}', 12345678901234567890]
 
 
 def random_case(rng, size):
@@ -898,17 +922,17 @@ def random_case(rng, size):
                     + rng.choice([' post', '', '{' + f'k{j}' + '}'])), True
         return '{' + f'k{i}' + '}{' + f'k{j}' + '}', True
 
-    def gen_value(depth, maxkey, pool):
+    def gen_value(depth, maxkey, pool, top=False):
         """Returns a ref. `pool`: refs that may be shared."""
         r = rng.random()
-        if pool and r < 0.12:
+        if pool and r < 0.12 and not top:
             return rng.choice(pool)
         if depth <= 0 or r < 0.30:
             q = rng.random()
             if q < 0.45:
                 ref = b.str(*expr(maxkey))
             elif q < 0.9:
-                ref = b.leaf(rng.choice(LEAVES))
+                ref = b.leaf(rng.choice(CTX_LEAVES if top else LEAVES))
             else:
                 ref = b.leaf(Opaque(rng.randrange(1000) + 10 * len(b.cells)))
             if rng.random() < 0.3:
@@ -922,7 +946,11 @@ def random_case(rng, size):
                 i = rng.randrange(maxkey)
                 ref = b.py(f'k{i}', key_strable[i])
             else:
-                ref = b.jsonify(gen_value(depth - 1, maxkey, pool))
+                p = gen_value(depth - 1, maxkey, pool)
+                if not ('sic' in b.cells[p] or 'py' in b.cells[p] or 'jsonify' in b.cells[p]):
+                    ref = b.jsonify(p)      # str(Jsonify(<special tag>)) is mis-modelled by PyRepr.pyStr
+                else:
+                    ref = p
             pool.append(ref)
             return ref
         n = rng.randint(0, size)
@@ -960,7 +988,7 @@ def random_case(rng, size):
 
     pool = []
     for i in range(nkeys):
-        r = gen_value(rng.randint(0, 2), i, pool)
+        r = gen_value(rng.randint(0, 2), i, pool, top=True)
         ctx.append([f'k{i}', r])
         key_strable.append(b.strable[r])
     root = gen_value(rng.randint(1, 4), nkeys, pool)
